@@ -213,6 +213,14 @@ func genSeq(r *core.Rand) (Seq, State) {
 			"guest": {Name: "guest", Access: hex.EncodeToString(rc.Bitmap(fixture.DefinedBits()[:5]...)), PW: ""},
 			"admin": {Name: "admin", Access: hex.EncodeToString(rc.Bitmap(fixture.DefinedBits()...)), PW: ""},
 		}, Bans: map[string]string{}}
+	if r.Chance(1, 3) {
+		// the board of a long-lived server: 70-95 KB of old posts, more than the 64 KiB one reply can carry
+		var sb strings.Builder
+		for i := 0; sb.Len() < 70000+r.Intn(25000); i++ {
+			sb.WriteString(fmt.Sprintf("From old-timer (Jan01 00:%02d):\r\rold post %d %s\r\r__________________________________________________________\r", i%60, i, r.Printable(600+r.Intn(600))))
+		}
+		init.Board = sb.String()
+	}
 	var seq Seq
 	st := init
 	nOps := 10 + r.Intn(5)
